@@ -2,7 +2,7 @@
    signature so that a single small OCaml driver (or a generated cases.v) can run
    them:  dispatch id scalars coords indices : option (list Q). *)
 From Coq Require Import List ZArith QArith Bool.
-Require Import Cox.Num.Ops Cox.Geo.Vec Cox.Model.Mesh Cox.Model.Polygon.
+Require Import Cox.Num.Ops Cox.Geo.Vec Cox.Model.Mesh Cox.Model.Polygon Cox.Model.Inside.
 Import ListNotations.
 
 Fixpoint group3 (l : list Q) : list (vec3 Q) :=
@@ -94,6 +94,47 @@ Section Entries.
     flat_map (fun f => let F := map (getv O V) f in
                        let ap := face_area_parts O F in
                        [face_vol_term O F; fst ap; snd ap]) idx.
+
+  (* 20: convex containment. sc = points, qs = vertices, idx = faces *)
+  Definition e_inside_convex (sc qs : list Q) (idx : list (list nat)) : list Q :=
+    let V := group3 qs in
+    flat_map (fun p => [b2q (inside_halfspaces O V idx p); max_side O V idx p]) (group3 sc).
+
+  (* 21: 2-D winding. sc = points (x y ...), qs = polygon (x y ...) *)
+  Definition e_winding2 (sc qs : list Q) : list Q :=
+    let V := group2 qs in
+    flat_map (fun p => [b2q (inside_polygon O p V); b2q (crossing_parity O p V); z2q (turn_sum O p V);
+                        boundary_dist2 O p V]) (group2 sc).
+
+  (* 22: 3-D winding. sc = apex o ++ points, qs = vertices, idx = triangles *)
+  Definition e_winding3 (sc qs : list Q) (idx : list (list nat)) : list Q :=
+    let V := group3 qs in let TT := resolve O V (map tri_of idx) in
+    match group3 sc with
+    | [] => []
+    | o :: pts =>
+      flat_map (fun p => [b2q (inside_polyhedron O p TT); z2q (cover O o p TT);
+                          b2q (cover_degenerate O o p TT); z2q (chain_sum O p TT)]) pts
+    end.
+
+  (* 23: squared distance to a triangulated surface. sc = points *)
+  Definition e_dist2_mesh (sc qs : list Q) (idx : list (list nat)) : list Q :=
+    let V := group3 qs in let TT := resolve O V (map tri_of idx) in
+    map (fun p => surface_dist2 O p TT) (group3 sc).
+
+  (* 24: ellipsoid/sphere containment. sc = [c(3); s(3)] ++ points *)
+  Definition e_inside_ellipsoid (sc : list Q) : list Q :=
+    match group3 sc with
+    | c :: s :: pts => map (fun p => b2q (inside_ellipsoid O c s p)) pts
+    | _ => []
+    end.
+
+  (* 25: ellipse containment. sc = [cx; cy; a; b] ++ points (x y ...) -> per point [box test as found; exact] *)
+  Definition e_ellipse (sc : list Q) : list Q :=
+    match sc with
+    | cx :: cy :: a :: b :: pts =>
+      flat_map (fun p => [b2q (inside_ellipse_box O (cx, cy) a b p); b2q (inside_ellipse O (cx, cy) a b p)]) (group2 pts)
+    | _ => []
+    end.
 End Entries.
 
 Definition dispatch (f : nat) (sc qs : list Q) (idx : list (list nat)) : option (list Q) :=
@@ -106,5 +147,11 @@ Definition dispatch (f : nat) (sc qs : list Q) (idx : list (list nat)) : option 
   | 10 => Some (e_polygon sc qs)
   | 11 => Some (e_polygon_planar qs)
   | 12 => Some (e_poly_faces qs idx)
+  | 20 => Some (e_inside_convex sc qs idx)
+  | 21 => Some (e_winding2 sc qs)
+  | 22 => Some (e_winding3 sc qs idx)
+  | 23 => Some (e_dist2_mesh sc qs idx)
+  | 24 => Some (e_inside_ellipsoid sc)
+  | 25 => Some (e_ellipse sc)
   | _ => None
   end%nat.
